@@ -258,7 +258,20 @@ func (e *Env) ident(name string) Value {
 		}
 	}
 	if gv, ok := x.ghostVars[name]; ok {
-		return Value{T: x.heapGetIn(e.heap, e.epoch, "G$"+name, gv.Sort)}
+		var gt types.Type
+		if gv.GoType != "" {
+			if te, err := parser.ParseExpr(gv.GoType); err == nil {
+				n := *e
+				if p := x.w.typesPkg(gv.Pkg); p != nil {
+					n.pkg = p
+				}
+				gt = n.lookupType(te)
+			}
+			if gt == nil {
+				e.fail("ghost var %s: unknown Go type %q", name, gv.GoType)
+			}
+		}
+		return Value{T: x.heapGetIn(e.heap, e.epoch, "G$"+name, gv.Sort), Typ: gt}
 	}
 	if e.pkg != nil {
 		if o := e.pkg.Scope().Lookup(name); o != nil {
@@ -513,6 +526,29 @@ func underMap(t types.Type) (*types.Map, bool) {
 
 func (e *Env) selectField(base Value, name string) Value {
 	x := e.x
+	if base.T.Sort == "Event" {
+		// log[k].Deliver_msg : field msg of constructor Deliver
+		if j := strings.Index(name, "_"); j > 0 {
+			if ev, ok := x.events[name[:j]]; ok {
+				for i, f := range ev.Fields {
+					if f == name[j+1:] {
+						var gt types.Type
+						if ev.GoTypes[i] != "" {
+							if te, err := parser.ParseExpr(ev.GoTypes[i]); err == nil {
+								n := *e
+								if p := x.w.typesPkg(ev.Pkg); p != nil {
+									n.pkg = p
+								}
+								gt = n.lookupType(te)
+							}
+						}
+						return Value{T: App(ev.Name+"."+f, ev.Sorts[i], base.T), Typ: gt}
+					}
+				}
+			}
+		}
+		e.fail("no event field %s", name)
+	}
 	if base.Typ == nil {
 		// spec-only datatypes (Slice): allow .arr .off .len .cap
 		if base.T.Sort == "Slice" {
@@ -690,6 +726,14 @@ func (e *Env) call(c *ast.CallExpr) Value {
 	case "tagof":
 		v := e.eval(args[0])
 		return Value{T: iTag(v.T)}
+	case "isev":
+		// isev(log[k], Deliver): the event was built by that constructor
+		v := e.eval(args[0])
+		id, ok := args[1].(*ast.Ident)
+		if !ok || x.events[id.Name] == nil {
+			e.fail("isev needs an event name")
+		}
+		return Value{T: Term{"((_ is " + id.Name + ") " + v.T.S + ")", "Bool"}}
 	case "isnil":
 		v := e.eval(args[0])
 		switch v.T.Sort {
@@ -708,6 +752,13 @@ func (e *Env) call(c *ast.CallExpr) Value {
 			r = sArr(r)
 		}
 		return Value{T: Le(e.oldNow, App("atime", "Int", r))}
+	case "ctxdone":
+		v := e.eval(args[0])
+		x.decls.Fun("ctxdone", []string{"Iface"}, "Ref")
+		return Value{T: App("ctxdone", "Ref", v.T)}
+	case "sidx":
+		a, b := e.eval(args[0]), e.eval(args[1])
+		return Value{T: sIdx(a.T, b.T), Typ: types.Typ[types.Int]}
 	case "gomod":
 		a, b := e.eval(args[0]), e.eval(args[1])
 		return Value{T: x.gomod(a.T, b.T), Typ: a.Typ}
